@@ -474,3 +474,61 @@ Theorem C08_translated_advance ps orc procs f eng st r eng' st' :
   advance ps orc f f st = (st', r).
 Proof. exact (GenEqPySim.gen_advance_eq ps orc procs f eng st r eng' st'). Qed.
 Print Assumptions C08_translated_advance.
+
+(* ---------------------------------------------------------------- audit follow-up *)
+(* commit: `converged` is the OR over every pending slot / memory row, independent of which one is committed last *)
+Theorem C08_commit_flag_is_or ps o st ch :
+  snd (fold_left (commit_slot ps) o (st, ch)) = ch || existsb (dirty st) o.
+Proof. exact (commit_flag_is_or ps o st ch). Qed.
+Print Assumptions C08_commit_flag_is_or.
+
+(* memories in the engine: rows are slots.  Two write ports on rows 1 and 2, the comb read port on row 1: after the
+   testbench raises the clock, set() returns with the read data refreshed (9) although row 2, committed last, kept its 7 *)
+Example C08_memory_example :
+  flat_map (fun r => snd r) (e_trace (fst (advance exm_ps (id_oracle 2 1 12) 20 5 exm_st))) = [-1; 9; -1; 9; -1; 7; -9; 0] /\
+  mask_local (nth 1 exm_ps no_proc) (fun i => Z.lor (among (seq 9 3) i) (among [] i)).
+Proof. split; [vm_compute; reflexivity|]. apply mem_sync_mask_local. Qed.
+Print Assumptions C08_memory_example.
+
+Theorem C08_memory_processes_mask_local base depth rowsh clk pol wports rports inputs :
+  mask_local (mem_comb base depth rowsh rports inputs) (among (map rp_data rports)) /\
+  mask_local (mem_sync base depth rowsh clk pol wports rports)
+             (fun i => Z.lor (among (seq base depth) i) (among (map rp_data rports) i)).
+Proof. split; [apply mem_comb_mask_local|apply mem_sync_mask_local]. Qed.
+Print Assumptions C08_memory_processes_mask_local.
+
+(* asynchronous reset (F7 repaired): a reset rise alone only loads reset values; with a clock edge the process is the
+   synchronous one; and such processes are covered by C08_compiled_write_disjoint (CSyncA) *)
+Theorem C08_arst_reset_only tab n l clk pos rst lo res cu nx :
+  hd 0 res = 0 ->
+  forall w, In w (r_writes (p_run (rtl_sync_arst tab n l clk pos rst) lo res cu nx)) ->
+    w_val w = sd_init (tab (w_sig w)) /\ sd_reset_less (tab (w_sig w)) = false /\ stmts_mask l (w_sig w) <> 0.
+Proof. exact (arst_reset_only tab n l clk pos rst lo res cu nx). Qed.
+Print Assumptions C08_arst_reset_only.
+
+Theorem C08_arst_clock_edge_is_sync tab n l clk pos rst lo res cu nx :
+  hd 0 res <> 0 ->
+  r_writes (p_run (rtl_sync_arst tab n l clk pos rst) lo res cu nx) =
+  r_writes (p_run (rtl_sync tab n l clk (b2z pos) (Some rst) true) lo [] cu nx).
+Proof. exact (arst_clock_edge_is_sync tab n l clk pos rst lo res cu nx). Qed.
+Print Assumptions C08_arst_clock_edge_is_sync.
+
+Theorem C08_tick_spec_layout d samples :
+  exists t1 t2, tick_spec d samples = TEdge (dd_clk d) 0 (dd_pos d) :: t1 :: t2 :: map TSample samples /\
+  (dd_async d = true -> forall r, dd_rst d = Some r -> t1 = TEdge r 0 true /\ t2 = TSample r) /\
+  (dd_async d = false -> t1 = TConst 0).
+Proof. exact (tick_spec_layout d samples). Qed.
+Print Assumptions C08_tick_spec_layout.
+
+(* Period(unit=value) in femtoseconds *)
+Theorem C08_period_units v :
+  (period_fs 0 v = v * 10 ^ 15 /\ period_fs 1 v = v * 10 ^ 12 /\ period_fs 2 v = v * 10 ^ 9 /\
+   period_fs 3 v = v * 10 ^ 6 /\ period_fs 4 v = v * 10 ^ 3 /\ period_fs 5 v = v) /\
+  (0 < v -> 2 * Z.abs (10 ^ 15 - period_fs 6 v * v) <= v /\ 2 * Z.abs (10 ^ 12 - period_fs 7 v * v) <= v /\
+            2 * Z.abs (10 ^ 9 - period_fs 8 v * v) <= v /\ 2 * Z.abs (10 ^ 6 - period_fs 9 v * v) <= v).
+Proof. split; [apply period_fs_time_units|apply period_fs_frequency]. Qed.
+Print Assumptions C08_period_units.
+
+Example C08_period_example : period_fs 9 7 = 142857 /\ period_fs 8 3 = 333333333 /\ period_fs 9 4 = 250000 /\ period_fs 3 7 = 7000000.
+Proof. repeat split; reflexivity. Qed.
+Print Assumptions C08_period_example.
